@@ -11,7 +11,7 @@ import (
 )
 
 func init() {
-	register(&Rule{ID: "C19.R7", Min: 4,
+	register(&Rule{ID: "C19.R7", Min: 3,
 		Text: "count and exponent move together in Decimal.Reduce: every store to the Exponent field adds a counter to the field's own value, outside every loop, and that counter is a term of the count returned at each return it reaches; conversely every term of a returned count (other than the count of a nested Reduce of the receiver, which raised the exponent itself, and the digit count of a zero) was added to the exponent on every path on which it is not zero, once (stripping 1000 zeros in a block and forgetting — or adding twice — the 1000 changes the value)",
 		Run:  ruleReduceExponentAccounting})
 }
